@@ -168,16 +168,16 @@ fn run_generic(tier: &str, which: &'static str, rec: &Recorder) -> RunOutput {
     let deadline = start + Duration::from_secs_f64(wall_cap_s(tier));
     let stats = E2Stats::new();
     let seed = std::env::var("VERIF_SEED").ok().and_then(|s| s.parse().ok()).unwrap_or(0);
-    for f in path_families(tier) {
-        if f.walpha.starts_with("w0") {
-            continue; // positive weights only
-        }
-        if which == "C06" && f.walpha == "whuge" {
-            continue; // values around 1e-19: the comparison tolerance is absolute below 1
-        }
-        let m = modes(&f);
-        for_each_graph(&f, seed, deadline, &stats, |b, c| if which == "C05" { check_betweenness(b, rec, c, &m) } else { check_closeness(b, rec, c, &m) });
+    let mut fams = path_families(tier);
+    if tier == "quick" {
+        fams.push(fam(crate::c04::DSL, 4, "u", &ORD_ONE)); // every self-loop placement on every 4-node digraph (thorough has it via path_families)
     }
+    // positive weights only; C06: values around 1e-19 (whuge) are below the absolute part of the comparison tolerance
+    let fams: Vec<Family> = fams.into_iter().filter(|f| !f.walpha.starts_with("w0") && !(which == "C06" && f.walpha == "whuge")).collect();
+    for_each_family(&fams, |f| {
+        let m = modes(f);
+        for_each_graph(f, seed, deadline, &stats, |b, c| if which == "C05" { check_betweenness(b, rec, c, &m) } else { check_closeness(b, rec, c, &m) });
+    });
     {
         let mut c = Counters::default();
         if which == "C05" {
